@@ -101,6 +101,11 @@ def run_job(job):
 
     def try_replay(cx, label, model, kind, detail=''):
         """returns True if a violation was confirmed"""
+        for v in R['violations']:
+            if v['label'] == label and v['kind'] == kind:
+                # same call site already confirmed on another path of this job
+                R['violations'].append(dict(v, path=''.join('TF'[not x] for x in cx.decisions[:cx.pos]), duplicate=True))
+                return True
         if R['replays'] >= max_replays:
             R['inconclusive'].append(dict(label=label, why='replay budget exhausted (%s)' % kind))
             return False
